@@ -593,8 +593,8 @@ def R3_loop(run):
         return
     sa = _apply(S.summary(a, S.Norm(**NORM_P)), PRE_SUBS_P)
     sb = S.summary(b, S.Norm(**NORM_S))
-    fa = {x for x in sa["atoms"] if "fail(" in x}
-    fb = {x for x in sb["atoms"] if "fail(" in x}
+    fa = {x for x in sa["atoms"] if "fail(" in x and "fail()" not in x}     # (an assertion that only panics names no refusal)
+    fb = {x for x in sb["atoms"] if "fail(" in x and "fail()" not in x}
     exempt_p = {"PARTIAL_FILL_ERROR": "exact-out partial fill without an explicit limit: the statement allows the SDK to answer",
                 "AMOUNT_REMAINING_OVERFLOW": "checked_sub failures (SDK: ARITHMETIC_OVERFLOW through ok_or, compared in the per-mode update rule)",
                 "AMOUNT_CALC_OVERFLOW": "same for checked_add"}
